@@ -105,7 +105,7 @@ func watchedCase(i int, fn func(i int)) {
 	if CurrentRun == nil {
 		return
 	}
-	if s1 != "" && top(s1) == top(s2) && waitingState.MatchString(s2) && strings.Contains(s2, "berty.tech/go-ipfs-log") {
+	if s1 != "" && top(s1) == top(s2) && (waitingState.MatchString(s2) || semWait(strings.SplitN(s2, "\n", 2)[0], s2)) && strings.Contains(s2, "berty.tech/go-ipfs-log") {
 		CurrentRun.Violate(CurrentRun.Prop+"/operation-never-returns", det("blocked_in", top(s2)), map[string]any{"case": i, "goroutine": clipStr(s2, 6000)},
 			"case %d called into the library %v ago and the call has not returned: its goroutine sits in the same wait state inside the library (%s)", i, caseLimit+time.Minute, top(s2))
 	} else {
